@@ -56,6 +56,21 @@ def law_pairs(r, base, obj, caps, base_vals):
     return out
 
 
+KEY_LAWS = {'map_map', 'map_concat', 'nested_slices', 'map_slice', 'map_shuffle', 'map_sort', 'map_cache', 'concat_split'}
+
+
+def key_obs(o):
+    try:
+        k = list(o.keys())
+    except Exception as e:
+        k = 'refused'
+    try:
+        it = [(a, repr(b)) for a, b in o.items()]
+    except Exception as e:
+        it = 'refused'
+    return k, it
+
+
 def run(tier):
     ld = common.import_impl()
     r = common.rng_for('C16')
@@ -72,6 +87,12 @@ def run(tier):
         except Exception:
             continue
         caps = g.caps(obj)
+        # a base that already carries duplicate keys (e.g. a selection naming one key twice) is outside the key laws:
+        # concatenate documents that keys() needs unique keys
+        bk0, bi0 = key_obs(obj)
+        if bk0 == 'refused' and bi0 != 'refused':
+            bk0 = [k for k, _ in bi0]
+        base_keys_unique = bk0 == 'refused' or len(set(bk0)) == len(bk0)
         for (law, lhs, rhs) in law_pairs(r, base, obj, caps, base_vals):
             laws[law] += 1
             try:
@@ -103,10 +124,24 @@ def run(tier):
                         ok = all(repr(lo[i]) == repr(ro[i]) for i in range(-nn, nn))
                 except Exception:
                     pass
+            # keys / items: for the laws whose two sides both keep the example keys the key view must agree as well
+            # (same keys in the same order, or both refuse)
+            if ok and law in KEY_LAWS and lo is not None and (ro is not None or law == 'nested_slices') and base_keys_unique:
+                lk, li = key_obs(lo)
+                if ro is not None:
+                    rk, ri = key_obs(ro)
+                else:
+                    bk, bi = key_obs(obj)
+                    s1, s2 = lhs.kids[0].a[0], lhs.a[0]
+                    cut = lambda xs: xs if isinstance(xs, str) else xs[slice(*s1[1:])][slice(*s2[1:])]
+                    rk, ri = cut(bk), cut(bi)
+                if repr(lk) != repr(rk) or repr(li) != repr(ri):
+                    ok = False
+                    lv, rv = ('keys', lk, 'items', li), ('keys', rk, 'items', ri)
             if not ok:
                 failures.append(dict(kind='program', summary=f'law {law} fails on the implementation: lhs={gen_a.coq_prog(lhs)[:200]} -> {lv!r} ; rhs -> {rv!r}'[:600],
                                      program=lhs.to_json(), coq_prog=gen_a.coq_prog(lhs), want=['iter', 'index'], law=law))
-    res = model_a.run_a('C16', tier, {'iter', 'index'}, n_quick=0, n_thorough=0, extra_nodes=nodes)
+    res = model_a.run_a('C16', tier, {'iter', 'index', 'keys'}, n_quick=0, n_thorough=0, extra_nodes=nodes)
     res.pop('cases', None)
     res['failures'] = failures + res['failures']
     res['coverage'].update(law_instances=dict(laws), base_pipelines=nbase)
